@@ -58,9 +58,14 @@ func (s *PFCPSession) CreatePDR(p pdr) {
 }
 
 // UpdatePDR updates existing pdr in the session.
-func (s *PFCPSession) UpdatePDR(p pdr) error {
+func (s *PFCPSession) UpdatePDR(p *pdr) error {
 	for idx, v := range s.pdrs {
 		if v.pdrID == p.pdrID {
+			// The counter cell was allocated for the rule when it was created; the PDR parsed
+			// from an Update PDR carries none. Without it the rule was rewritten with cell 0
+			// (another rule's cell) and cell 0 was "given back" when the session ended.
+			p.ctrID = v.ctrID
+
 			// An Update PDR names the TEID / UE address explicitly; remember that
 			// the UPF allocated them, or they are never released.
 			if v.UPAllocateFteid && p.tunnelTEID == v.tunnelTEID {
@@ -71,7 +76,7 @@ func (s *PFCPSession) UpdatePDR(p pdr) error {
 				p.allocIPFlag = true
 			}
 
-			s.pdrs[idx] = p
+			s.pdrs[idx] = *p
 
 			return nil
 		}
